@@ -36,6 +36,14 @@ def run(ctx):
             cases.append(mk('kdtree', seqs, k))
             if k <= 2:
                 cases.append(mk('hash_based', seqs if k == 1 else seqs[:40], k))
+    # repertoires whose sequences all have ONE length (aligned CDR3 sets): neighbours by one deletion + one insertion have
+    # intermediates of other lengths - an engine that prunes by the stored lengths loses them
+    for alpha in ('ACD', 'ALY'):
+        same = [s for s in all_strings(alpha, 3 if ctx.quick else 4) if len(s) == (3 if ctx.quick else 4)]
+        for k in (2, 3):
+            cases.append(mk('kdtree', same, k))
+            if k == 2:
+                cases.append(mk('hash_based', same[:40] if not ctx.quick else same, 2))
     # small cases through the algorithm-mirroring models themselves
     for t in range(10 if ctx.quick else 60):
         seqs = rng.sample(all_strings('ACD', 3), 8) + ['AC', 'AC']
